@@ -42,9 +42,10 @@ Proof.
     assert (Hr : Exists critical_unsupported r).
     { inversion Hex as [? ? [Hu _]|? ? Hr]; subst; [congruence|exact Hr]. }
     destruct (erase_body_supported (wpl_body p) next Sup Hb) as [[x Ex]|[En [pkt Ep]]].
-    + unfold body. rewrite (payload_rt _ next x Hb Sup Ex). cbn [bind]. decide_cmp.
-      rewrite from_app by reflexivity. cbn [bind]. unfold tl.
-      rewrite (IH f last next); try assumption; try reflexivity. fold tl. lia.
+    + unfold body. rewrite (payload_rt _ next x Hb Sup Ex). cbn [bind].
+      decide_cmp. rewrite from_app by reflexivity. cbn [bind]. unfold tl.
+      rewrite (IH f last next); try assumption; try reflexivity; [|fold tl; lia].
+      cbn [bind]. match goal with |- (if ?c then _ else _) = _ => destruct c; reflexivity end.
     + unfold body. rewrite Ep in *. cbn [wtype wenc_body] in *. unfold payload_unmarshal.
       change (48 =? 33) with false; change (48 =? 34) with false; change (48 =? 35) with false; change (48 =? 36) with false;
         change (48 =? 37) with false; change (48 =? 38) with false; change (48 =? 39) with false; change (48 =? 40) with false;
